@@ -407,7 +407,7 @@ func runC15(w *core.W) {
 		}
 	}
 	// line table: exhaustive short texts, every offset
-	lmax := w.Pick(5, 7)
+	lmax := w.Pick(5, 8)
 	li := 0
 	for k := 0; k <= lmax; k++ {
 		total := gen.Pow(len(lineSyms), k)
